@@ -807,7 +807,7 @@ func c20(c *core.Ctx, r *core.Report) {
 	r.Count("go_statements", len(gos))
 	known := map[string]bool{}
 	for _, f := range append(c.Invokers(ro.CloserClose), c.Invokers(ro.DRPPPostProcess)...) {
-		for _, g := range goStatementsOf(f) {
+		for _, g := range fanGosOf(c, f) {
 			known[core.FnName(g.Parent())] = true
 		}
 	}
@@ -939,7 +939,7 @@ func c20(c *core.Ctx, r *core.Report) {
 				n++
 				switch x := o.(type) {
 				case *ssa.Call:
-					if !core.IsCallTo(x.Common(), concSet) {
+					if !core.IsCallTo(x.Common(), concSet) && !concurrentContainer(x.Type(), 0) {
 						all = false
 					}
 				case *ssa.Parameter:
@@ -962,7 +962,7 @@ func c20(c *core.Ctx, r *core.Report) {
 						}
 					}
 				default:
-					if concT == nil || core.NamedOf(o.Type()) != concT {
+					if !(concT != nil && core.NamedOf(o.Type()) == concT) && !concurrentContainer(o.Type(), 0) {
 						all = false
 					}
 				}
@@ -973,6 +973,10 @@ func c20(c *core.Ctx, r *core.Report) {
 			ft := st.Field(i).Type()
 			if concT != nil && core.NamedOf(ft) == concT {
 				usesConc = true // declared with the concurrent variant's concrete type
+				continue
+			}
+			if _, isIface := ft.Underlying().(*types.Interface); !isIface && concurrentContainer(ft, 0) && core.NamedOf(derefType(ft)) != nil && !strings.HasSuffix(core.NamedOf(derefType(ft)).Obj().Pkg().Path(), "util/sync2") {
+				usesConc = true // a set type of the package's own whose whole state is concurrent containers
 				continue
 			}
 			it, isIface := ft.Underlying().(*types.Interface)
@@ -999,6 +1003,38 @@ func c20(c *core.Ctx, r *core.Report) {
 		}
 		r.Check(okF && usesConc, "C20.R5", "registry-state:"+T.Obj().Name(), c.Pos(T.Obj().Pos()), "the singleton cache has no plain map field and its in-creation set is the concurrent variant")
 	}
+}
+
+func derefType(t types.Type) types.Type {
+	if pt, ok := t.Underlying().(*types.Pointer); ok {
+		return pt.Elem()
+	}
+	return t
+}
+
+// concurrentContainer: the type's whole state is made of containers that are safe for concurrent use: sync.Map,
+// util/sync2.Map, util/list's concurrent sets, or a struct of such (a set type built on them).
+func concurrentContainer(t types.Type, depth int) bool {
+	t = derefType(t)
+	n := core.NamedOf(t)
+	if n != nil && n.Obj().Pkg() != nil {
+		switch {
+		case n.Obj().Pkg().Path() == "sync" && n.Obj().Name() == "Map":
+			return true
+		case strings.HasSuffix(n.Obj().Pkg().Path(), "util/sync2") && n.Obj().Name() == "Map":
+			return true
+		}
+	}
+	st, ok := t.Underlying().(*types.Struct)
+	if !ok || depth > 2 || st.NumFields() == 0 {
+		return false
+	}
+	for i := 0; i < st.NumFields(); i++ {
+		if !concurrentContainer(st.Field(i).Type(), depth+1) {
+			return false
+		}
+	}
+	return true
 }
 
 // c20LoggerPure (R7): loggers are shared by every goroutine of the parallel phases (syslog.Pref hands out one cached
